@@ -32,7 +32,7 @@ import shlex
 from dataclasses import dataclass, field
 
 from . import rustlex as rl
-from .rewrites import apply_rewrites, RULES
+from .rewrites import apply_rewrites, RULES, FREE as FREE_RULES
 
 
 class AnchorLoss(Exception):
@@ -573,7 +573,7 @@ class Weaver:
                 raise AnchorLoss("fn %s: rewrite %s matched %d times, expected %d" % (qname, r, got, c))
         self.block_fns.append((name, tags, body))
         for r, c in counts.items():
-            if c and r not in declared:
+            if c and r not in declared and r not in FREE_RULES:
                 raise AnchorLoss("fn %s: rewrite %s matched %d times but is not declared in the unit (rw=%s:%d)" % (qname, r, c, r, c))
             if c:
                 self.rewrite_log.append("%s: %s x%d" % (qname, r, c))
